@@ -17,7 +17,7 @@ RULE = ("BFS over histories of callLater(d in {0,1,2}) with an optional one-step
         "iteration are compared with a dict-of-times reference. non-trivial = distinct (state, exercised case) "
         "pairs for transitions that ran a call, rescheduled or cancelled a queued/staged call, or ran a script")
 BOUNDS = {"quick": "<= 4 live user calls, <= 1 scripted call per history; depth 5 (empty), 5 (armed-51), 4 (mixed 60+10), 4 (warm heap of 4)",
-          "thorough": "<= 4 live user calls, <= 1 scripted call per history (<= 2 from empty); depth 6 (empty), 6 (armed-51), 5 (mixed 60+10), 5 (warm heap of 4)"}
+          "thorough": "<= 4 live user calls, <= 1 scripted call per history; depth 6 (empty), 6 (armed-51), 5 (mixed 60+10), 5 (warm heap of 4); plus depth 5 from empty with <= 2 scripted calls"}
 ASSUMPTIONS = [
     "integer times: the reference and the reactor compute the same sums exactly",
     "canonical state = pending calls in creation order (time relative to now, script, flags) + the real heap and "
@@ -39,10 +39,9 @@ LEVEL_NOTE = ("bounded: integer times, <= 4 live user calls (+10 preset), one-st
               "does not move inside an iteration; threads, I/O and run() are not involved")
 
 INITS = ["empty", "armed51", "mixed", "warm"]
-DEPTH = {"quick": {"empty": 5, "armed51": 5, "mixed": 4, "warm": 4},
-         "thorough": {"empty": 6, "armed51": 6, "mixed": 5, "warm": 5}}
-SCRIPTED = {"quick": {"empty": 1, "armed51": 1, "mixed": 1, "warm": 1},
-            "thorough": {"empty": 2, "armed51": 1, "mixed": 1, "warm": 1}}
+# families explored per tier: (initial state, depth, max scripted calls per history)
+FAMILIES = {"quick": [("empty", 5, 1), ("armed51", 5, 1), ("mixed", 4, 1), ("warm", 4, 1)],
+            "thorough": [("empty", 6, 1), ("empty", 5, 2), ("armed51", 6, 1), ("mixed", 5, 1), ("warm", 5, 1)]}
 CAP = 4
 SCRIPT_IDS = tuple(range(1, 12))   # _timers.SCRIPTS[1..11]
 # in the two big initial states a scripted call is created with delay 0 and aims at the newest target
@@ -110,29 +109,29 @@ def _initial(init, prefix):
 SPLIT = {"quick": 1, "thorough": 2}
 
 
-def _enabled(init, tier):
+def _enabled(init, scripted):
     if init == "empty":
-        return lambda tm: tm.enabled(CAP, SCRIPTED[tier][init], SCRIPT_IDS)
-    return lambda tm: tm.enabled(CAP, SCRIPTED[tier][init], BIG_SCRIPT_IDS, scripted_delays=(0,))
+        return lambda tm: tm.enabled(CAP, scripted, SCRIPT_IDS)
+    return lambda tm: tm.enabled(CAP, scripted, BIG_SCRIPT_IDS, scripted_delays=(0,))
 
 
 def shards(tier, seed):
     out = []
-    for init in INITS:
-        out.append(["pre", init, []])
+    split = SPLIT[tier]
+    for init, depth, scripted in FAMILIES[tier]:
+        out.append(["pre", init, [], depth, scripted])
         front = []
-        en = _enabled(init, tier)
-        bfs(_initial(init, []), apply, en, canon, lambda st, h: (), SPLIT[tier],
-            on_state=lambda st, h: front.append([list(e) for e in h]) if len(h) == SPLIT[tier] else None)
-        out.extend(["sub", init, h] for h in front)
+        bfs(_initial(init, []), apply, _enabled(init, scripted), canon, lambda st, h: (), split,
+            on_state=lambda st, h: front.append([list(e) for e in h]) if len(h) == split else None)
+        out.extend(["sub", init, h, depth, scripted] for h in front)
     return out
 
 
 def run_shard(shard, tier, seed):
-    mode, init, prefix = shard[0], shard[1], [tuple(e) for e in shard[2]]
-    depth = SPLIT[tier] if mode == "pre" else DEPTH[tier][init] - SPLIT[tier]
+    mode, init, prefix, fdepth, scripted = shard[0], shard[1], [tuple(e) for e in shard[2]], shard[3], shard[4]
+    depth = SPLIT[tier] if mode == "pre" else fdepth - SPLIT[tier]
     stats = Stats()
-    en = _enabled(init, tier)
+    en = _enabled(init, scripted)
 
     def inv(tm, hist):
         fl = tm.last_flags
